@@ -6,7 +6,7 @@ from engine import bind
 from specs import basisfn
 from specs.gauss1d import Gauss1D
 
-from .common import Frame, cart_components, tag
+from .common import Frame, Seen, cart_components, tag
 from .overlap import spec_of_shell, sym_shell_pair
 
 
@@ -74,7 +74,7 @@ class ComposeDiff:
         ea, eb = M.vec("a", Ka, "pos"), M.vec("b", Kb, "pos")
         coa, cob = M.vec("da", (Ka, Ma)), M.vec("db", (Kb, Mb))
         na, nb = M.vec("na", (len(ca), Ka)), M.vec("nb", (len(cb), Kb))
-        seen = {}
+        seen = Seen("compose_diff/pre@callees")
 
         def inter_stub(order_max, coord_a, am, exps_a, coord_b, bm, exps_b):
             seen["inter"] = (order_max, coord_a, am, exps_a, coord_b, bm, exps_b)
